@@ -1057,3 +1057,45 @@ func rulePARSEINPUT(c *Ctx, r *Report) {
 		}
 	}
 }
+
+// PARSE-RETURNS (C05/C06/C10/C11): Parse has no acceptance criterion of its own.
+func rulePARSERETURNS(c *Ctx, r *Report) {
+	const rule = "PARSE-RETURNS"
+	r.doc(rule, "every return of Parse whose error may be non-nil returns the error of the parse loop or of expr.Validate unchanged; Parse adds no criterion of its own (a length, depth or shape limit applied after parsing would accept a different set of queries depending on options that change the tree's shape)")
+	pr := c.parserRoles()
+	if pr.Err != "" || pr.Parse == nil {
+		r.bad(rule, "anchor", "-", "Parse not resolved")
+		return
+	}
+	validate := c.pkgFunc(pkgExpr, "Validate")
+	paths, complete := c.enumPaths(pr.Parse, 5000)
+	if !complete {
+		r.bad(rule, "paths", c.pos(pr.Parse.Pos()), "too many paths")
+		return
+	}
+	n := 0
+	for _, p := range paths {
+		if p.Ret == nil || len(p.Ret.Results) != 2 {
+			continue
+		}
+		ev := c.resolve(p.Ret.Results[1], p.Env)
+		if isNilConst(ev) {
+			continue
+		}
+		n++
+		var call *ssa.Call
+		switch x := ev.(type) {
+		case *ssa.Extract:
+			call, _ = x.Tuple.(*ssa.Call)
+		case *ssa.Call:
+			call = x
+		}
+		key := "error-return|" + c.key(ev, p.Env)
+		if call != nil && (call.Call.StaticCallee() == pr.ParseLoop || (validate != nil && call.Call.StaticCallee() == validate)) {
+			r.ok(rule, key, c.instrPos(p.Ret), "propagated unchanged")
+		} else {
+			r.bad(rule, key, c.instrPos(p.Ret), "Parse fails with an error of its own ("+c.key(ev, p.Env)+"): a criterion outside the lexer, the shift/reduce loop and the validators decides which queries are accepted")
+		}
+	}
+	r.floor(rule, "error returns of Parse", n, 2)
+}
